@@ -95,7 +95,7 @@ def attach(m, n, rev, **kw):
 def conds(tier):
     q = tier == "quick"
     cs = []
-    for (m, n) in ([(2, 3), (3, 3), (2, 4), (3, 4), (4, 3)] if q else [(3, 3), (2, 4), (3, 4), (4, 3), (4, 4), (2, 5), (3, 5), (4, 5)]):
+    for (m, n) in ([(2, 3), (3, 3), (2, 4), (3, 4), (4, 3), (2, 5)] if q else [(3, 3), (2, 4), (3, 4), (4, 3), (4, 4), (2, 5), (3, 5), (4, 5)]):
         size = 1
         for i in range(1, m):
             size *= i
